@@ -396,7 +396,7 @@ pub fn op_table() -> Vec<(&'static str, Vec<Vec<i64>>)> {
     let v = |a: &[&[i64]]| a.iter().map(|x| x.to_vec()).collect::<Vec<_>>();
     vec![
         // edit_operations.rs
-        ("set_char", v(&[&[0, 0, 0, 0], &[0, 7, 4, 1], &[1, 1, 1, 3], &[2, 0, 0, 5], &[1, 3, 2, 8], &[0, 8, 5, 0], &[0, 2, 1, 2]])),
+        ("set_char", v(&[&[0, 0, 0, 0], &[0, 7, 4, 1], &[1, 1, 1, 3], &[2, 0, 0, 5], &[1, 3, 2, 8], &[0, 8, 5, 0], &[0, 2, 1, 2], &[-1, 1, 0, 4]])),
         ("set_char_mirror", v(&[&[0, 1, 1, 1], &[1, 0, 0, 4]])),
         ("swap_char", v(&[&[0, 0, 0, 7, 4], &[1, 0, 0, 1, 1], &[0, 2, 2, 2, 2], &[0, 0, 0, 8, 0]])),
         ("paste", v(&[&[0, 1, 1, 2, 2], &[1, -1, -1, 3, 2], &[2, 6, 3, 4, 4]])),
@@ -429,11 +429,11 @@ pub fn op_table() -> Vec<(&'static str, Vec<Vec<i64>>)> {
         ("add_floating_layer", v(&[&[1], &[2]])),
         ("merge_layer_down", v(&[&[0], &[1], &[2], &[3]])),
         ("toggle_layer_visibility", v(&[&[0], &[1], &[2]])),
-        ("move_layer", v(&[&[0, 1, 1], &[1, -2, 0], &[1, 0, 0], &[2, 7, 4]])),
+        ("move_layer", v(&[&[0, 1, 1], &[1, -2, 0], &[1, 0, 0], &[2, 7, 4], &[-1, 2, 1]])),
         ("set_layer_size", v(&[&[0, 6, 4], &[0, 10, 7], &[1, 2, 2], &[1, 8, 5], &[2, 1, 1], &[0, 8, 5], &[1, 0, 0], &[0, 4, 3], &[0, 10, 6], &[1, 4, 3]])),
-        ("stamp_layer_down", v(&[&[1], &[2], &[0]])),
-        ("rotate_layer", v(&[&[0], &[1], &[2]])),
-        ("make_layer_transparent", v(&[&[0], &[1], &[2]])),
+        ("stamp_layer_down", v(&[&[1], &[2], &[0], &[-1]])),
+        ("rotate_layer", v(&[&[0], &[1], &[2], &[-1]])),
+        ("make_layer_transparent", v(&[&[0], &[1], &[2], &[-1]])),
         ("update_layer_properties", v(&[&[0, 0], &[1, 1], &[1, 2], &[1, 3], &[2, 4], &[0, 5], &[1, 6], &[1, 7], &[3, 0]])),
         // area_operations.rs
         ("justify_left", v(&[&[0], &[1], &[2]])),
@@ -521,7 +521,9 @@ pub fn apply(es: &mut EditState, name: &str, a: &[i64]) -> OpRes {
     let g = |i: usize| a.get(i).copied().unwrap_or(0);
     let gi = |i: usize| g(i) as i32;
     let gu = |i: usize| g(i).max(0) as usize;
-    let cur = |es: &mut EditState, l: i64| es.set_current_layer(l.max(0) as usize);
+    // a layer argument of -1 leaves the current layer where the previous operations left it (the raw index may be stale: clear_layer,
+    // remove_layer and undo steps move or invalidate it, and a client does not re-select the layer before every call)
+    let cur = |es: &mut EditState, l: i64| if l >= 0 { es.set_current_layer(l as usize) };
     let caret = |es: &mut EditState, x: i32, y: i32| es.get_caret_mut().set_position(Position::new(x, y));
     let r = match name {
         "set_char" | "set_char_mirror" => {
@@ -929,7 +931,9 @@ fn gen_cases(seed: u64, thorough: bool, gen_path: &str) -> Vec<Case> {
     // (2a') context pairs: an operation that changes what later undo records depend on (layer size, layer flags, selection,
     //       caret font page, visibility, offset, stored rows/columns) followed by every table entry, and the reverse order for
     //       set_layer_size; all seed documents in thorough, two (rotating with the seed) in quick
-    let ctx = ["set_layer_size", "update_layer_properties", "set_selection", "switch_to_font_page", "toggle_layer_visibility", "move_layer", "delete_column", "delete_row"];
+    // (... and every operation that moves or invalidates the CURRENT LAYER index: later operations record that index)
+    let ctx = ["set_layer_size", "update_layer_properties", "set_selection", "switch_to_font_page", "toggle_layer_visibility", "move_layer", "delete_column", "delete_row",
+               "clear_layer", "remove_layer", "duplicate_layer", "add_new_layer", "raise_layer", "lower_layer", "merge_layer_down"];
     let mut n = seed as usize;
     for (ci, cj) in t.flat.iter().copied().filter(|(i, _)| ctx.contains(&t.ops[*i].0)) {
         let c = Step::Op(t.ops[ci].0.to_string(), t.ops[ci].1[cj].clone());
